@@ -452,6 +452,61 @@ m("C16-name-for-spec-class-only", "C16", [(SPEC,
   "\tvendor, class := parser.ParseQualifier(raw.Kind)\n\tif vendor == \"\" {\n\t\treturn \"\", fmt.Errorf(\"invalid vendor/class %q in Spec\", raw.Kind)\n\t}\n\n\treturn GenerateSpecName(vendor, class), nil",
   "\tvendor, class := parser.ParseQualifier(raw.Kind)\n\n\treturn GenerateSpecName(vendor, class), nil")], "unqualified kind yields the name '-kind' instead of an error")
 
+# ---------------------------------------------------------------- C11
+m("C11-no-rename", "C11", [(CACHE,
+  "eventMask := fsnotify.Rename | fsnotify.Remove | fsnotify.Write | fsnotify.Create",
+  "eventMask := fsnotify.Remove | fsnotify.Write | fsnotify.Create")], "files renamed away are not noticed")
+m("C11-refresh-before-update", "C11", [(CACHE,
+  "\t\t\t\tw.update(dirErrors)\n\t\t\t}\n\t\t\t_ = refresh()\n\t\t\tm.Unlock()",
+  "\t\t\t\tw.update(dirErrors)\n\t\t\t}\n\t\t\tif event.Op != fsnotify.Remove {\n\t\t\t\t_ = refresh()\n\t\t\t}\n\t\t\tm.Unlock()")], "Remove events update the watch list but do not refresh")
+m("C11-update-not-readd", "C11", [(CACHE,
+  "\tfor _, dir = range removed {\n\t\tw.tracked[dir] = false\n",
+  "\tfor _, dir = range removed {\n\t\tdelete(w.tracked, dir)\n")], "a removed directory is forgotten instead of being re-added when it reappears")
+m("C11-update-reports-false", "C11", [(CACHE,
+  "\t\t\tw.tracked[dir] = true\n\t\t\tdelete(dirErrors, dir)\n\t\t\tupdate = true\n",
+  "\t\t\tw.tracked[dir] = true\n\t\t\tdelete(dirErrors, dir)\n")], "a directory that appeared late is watched but its current content is never loaded")
+m("C11-refreshifrequired-ignores-update", "C11", [(CACHE,
+  "\tif force || (c.autoRefresh && c.watch.update(c.dirErrors)) {",
+  "\tif force {\n\t\treturn true, c.refresh()\n\t}\n\tif c.autoRefresh && len(c.dirErrors) > 0 && c.watch.update(c.dirErrors) {")], "missing directories are only retried while an error is recorded")
+m("C11-filter-write-any-name", "C11", [(CACHE,
+  "\t\t\tif event.Op == fsnotify.Write || event.Op == fsnotify.Create {\n\t\t\t\tif ext := filepath.Ext(event.Name); ext != \".json\" && ext != \".yaml\" {",
+  "\t\t\tif event.Op == fsnotify.Write || event.Op == fsnotify.Create || event.Op == fsnotify.Rename {\n\t\t\t\tif ext := filepath.Ext(event.Name); ext != \".json\" && ext != \".yaml\" {")], "rename events of directories (no extension) are filtered out")
+m("C11-getvendorspecs-stale", "C11", [(CACHE,
+  "func (c *Cache) GetVendorSpecs(vendor string) []*Spec {\n\tc.Lock()\n\tdefer c.Unlock()\n\n\t_, _ = c.refreshIfRequired(false) // we record but ignore errors\n",
+  "func (c *Cache) GetVendorSpecs(vendor string) []*Spec {\n\tc.Lock()\n\tdefer c.Unlock()\n")], "one query method skips refreshIfRequired")
+m("C11-setup-tracked-true", "C11", [(CACHE,
+  "\tfor _, dir = range dirs {\n\t\tw.tracked[dir] = false\n\t}",
+  "\tfor _, dir = range dirs {\n\t\tw.tracked[dir] = dir == \"\"\n\t}")], "weird init; kept as a sanity mutant")
+
+# ---------------------------------------------------------------- C20
+DEFC = "pkg/cdi/default-cache.go"
+m("C20-start-always", "C20", [(CACHE,
+  "\tif c.autoRefresh {\n\t\tc.watch.setup(c.specDirs, c.dirErrors)\n\t\tc.watch.start(&c.Mutex, c.refresh, c.dirErrors)\n\t}",
+  "\tif c.autoRefresh {\n\t\tc.watch.setup(c.specDirs, c.dirErrors)\n\t}\n\tc.watch.start(&c.Mutex, c.refresh, c.dirErrors)")], "a goroutine is started on every reconfiguration, also with auto-refresh off (bound to the old, closed watcher or nil)")
+m("C20-direrrors-kept", "C20", [(CACHE,
+  "\tc.dirErrors = make(map[string]error)\n\n\tc.watch.stop()",
+  "\tif c.dirErrors == nil {\n\t\tc.dirErrors = make(map[string]error)\n\t}\n\n\tc.watch.stop()")], "directory errors of the previous configuration survive a reconfiguration")
+m("C20-default-configure-twice", "C20", [(DEFC,
+  "\tif len(options) == 0 || created {\n\t\treturn nil\n\t}",
+  "\tif len(options) == 0 || (created && len(options) > 1) {\n\t\treturn nil\n\t}")], "the first cdi.Configure with a single option applies it twice (second watcher/goroutine churn)")
+m("C20-default-create-no-options", "C20", [(DEFC,
+  "\t\tdefaultCache = newCache(options...)\n\t\tcreated = true",
+  "\t\tdefaultCache = newCache()\n\t\tcreated = true")], "options of the creating cdi.Configure call are dropped")
+m("C20-goroutine-new-watcher", "C20", [(CACHE,
+  "\tgo w.watch(w.watcher, m, refresh, dirErrors)",
+  "\tgo func() {\n\t\tfor {\n\t\t\tw.watch(w.watcher, m, refresh, dirErrors)\n\t\t\tif w.watcher == nil {\n\t\t\t\treturn\n\t\t\t}\n\t\t}\n\t}()")], "the goroutine restarts itself on the current watcher: one more goroutine per reconfiguration")
+m("C20-refresh-skipped-when-off", "C20", [(CACHE,
+  "\t_ = c.refresh() // we record but ignore errors\n}",
+  "\tif c.autoRefresh {\n\t\t_ = c.refresh() // we record but ignore errors\n\t}\n}")], "a cache reconfigured to manual mode keeps the old index until Refresh()")
+m("C20-setup-before-options", "C20", [(CACHE,
+  "\tfor _, o := range options {\n\t\to(c)\n\t}\n\n\tc.dirErrors = make(map[string]error)\n\n\tc.watch.stop()\n\tif c.autoRefresh {\n\t\tc.watch.setup(c.specDirs, c.dirErrors)",
+  "\tc.dirErrors = make(map[string]error)\n\n\tc.watch.stop()\n\tif c.autoRefresh {\n\t\tc.watch.setup(c.specDirs, c.dirErrors)\n\t}\n\tfor _, o := range options {\n\t\to(c)\n\t}\n\tif c.autoRefresh {")], "the watches are set up for the previous directory list")
+m("C20-watch-plain-receive", "C20", [(CACHE,
+  "\t\tcase _, ok := <-watch.Errors:\n\t\t\tif !ok {\n\t\t\t\treturn\n\t\t\t}",
+  "\t\tcase <-watch.Errors:"), (CACHE,
+  "\t\tcase event, ok := <-watch.Events:\n\t\t\tif !ok {\n\t\t\t\treturn\n\t\t\t}\n",
+  "\t\tcase event := <-watch.Events:\n")], "no exit on closed channels: the goroutine of a stopped watch spins forever")
+
 
 def emit():
     os.makedirs(os.path.join(VERIF, "mutants"), exist_ok=True)
